@@ -68,7 +68,10 @@ def _runs(draw):
     if fam in ("explicit_fixed", "splitting", "implicit_fixed") and draw(st.integers(0, 3)) == 0:
         tol = None         # the library's default tolerances (nothing passed to the constructor)
     return dict(part="runs", method=method, dtype=dtype, prob=prob, y0=draw(PR.state([n])), t0=t0, tf=tf, dt=dt,
-                rtol=tol, atol=tol, dense=draw(st.booleans()), ops=ops, eta=draw(st.sampled_from([False] * 5 + [True])))
+                rtol=tol, atol=tol, dense=draw(st.booleans()), ops=ops, eta=draw(st.sampled_from([False] * 5 + [True])),
+                # a callback that assigns the step size every k-th step (a step cap / floor / restart: system.dt = <magnitude>): the
+                # assignment is oriented by the dt setter along the DECLARED span, whatever the direction of the running call
+                cb_dt=draw(st.sampled_from([None, None, None, dict(every=1, factor=0.5), dict(every=2, factor=1.0), dict(every=3, factor=0.25)])))
 
 
 @st.composite
@@ -209,7 +212,7 @@ def check(case):
     method = case["method"]
     fam = M.family(M.get(method))
     attrs = dict(method=method, family=fam, dtype=case["dtype"])
-    labels = ["family:" + fam, "dtype:" + case["dtype"]] + traj.span_class(case["t0"], case["tf"]) + (["progress_bar_requested"] if case.get("eta") else []) + (["default_tolerances"] if case.get("rtol") is None else [])
+    labels = ["family:" + fam, "dtype:" + case["dtype"]] + traj.span_class(case["t0"], case["tf"]) + (["progress_bar_requested"] if case.get("eta") else []) + (["default_tolerances"] if case.get("rtol") is None else []) + (["callback_assigns_dt"] if case.get("cb_dt") else [])
     viols = []
     try:
         a, f, y0 = traj.make_system(case)
@@ -286,7 +289,19 @@ def check(case):
                 limit = n_before + (400 if fam in ("implicit_fixed", "implicit_embedded", "richardson") else COST_CAP)
         else:
             limit = n_before + 5
-        err = traj.run_integrate(a, None if kind == "integrate" else dt(target), step_limit=limit, eta=bool(case.get("eta")))
+        cbs_ = []
+        if case.get("cb_dt"):
+            count_verdict = False
+            limit = n_before + (400 if fam in ("implicit_fixed", "implicit_embedded", "richardson") else COST_CAP)
+            mag_ = abs(float(case["dt"])) * case["cb_dt"]["factor"]
+            seen_ = [0]
+
+            def assign_dt(system, _mag=mag_, _every=case["cb_dt"]["every"]):
+                seen_[0] += 1
+                if seen_[0] % _every == 0:
+                    system.dt = _mag
+            cbs_ = [assign_dt]
+        err = traj.run_integrate(a, None if kind == "integrate" else dt(target), step_limit=limit, eta=bool(case.get("eta")), callbacks=cbs_)
         if isinstance(err, traj.StepCap):
             if moving and count_verdict:
                 viols.append(V("too_many_steps", "{}: integrating from {!r} to {!r} with dt={!r} recorded more than ceil(|span|/(|dt| - ulp/2)) + 2 = {} steps".format(
